@@ -617,6 +617,11 @@ fn c08(c: &mut Ctx) {
             c.str_case("fenboard", "fenboard ", s, "");
         }
     }
+    // the FEN of board objects that a make / unmake has touched (`Board::as_fen`, and that it parses back to an equal board)
+    for p in object_positions(c, 60) {
+        c.pos(&p);
+        object_cases(c, &p, "fenformat", &format!("fenformat {}", raw_fmt(p.board.raw())), 6, 6);
+    }
 }
 
 fn san_grammar(b: &Board) -> Vec<String> {
@@ -1229,6 +1234,11 @@ fn c18(c: &mut Ctx) {
         c.pos(&q);
         c.case("mirror h", &format!("mirror {} h", q.raw_text()));
         cnt += 1;
+    }
+    // the symmetry asked of board objects that a make / unmake has touched (the mirror image is built afresh)
+    for p in object_positions(c, 60) {
+        c.pos(&p);
+        object_cases(c, &p, "mirror v", &format!("mirror {} v", p.raw_text()), 5, 8);
     }
 }
 
